@@ -5,8 +5,10 @@ import (
 	"fmt"
 	"os"
 	"path/filepath"
+	"runtime"
 	"sort"
 	"strings"
+	"sync/atomic"
 	"syscall"
 	"testing/synctest"
 	"time"
@@ -61,6 +63,12 @@ func RepoDir() string {
 
 // NewSys assembles (VerifAssemble) but does not start the operator.
 // cluster may be nil (a fresh fake cluster is created).
+// SyncYieldPoint is hit by FactoryStore.Start right before its cache-sync poll (argument: informer.HasSynced).
+const SyncYieldPoint = "fs.start.beforeSyncPoll"
+
+// SyncYieldGaveUp counts polls that were entered although the yield loop was tried.
+var SyncYieldGaveUp atomic.Int64
+
 func NewSys(hs *HookSet, cluster *fake.Cluster) (*Sys, error) {
 	// a fresh store, not Reset(): a bubble abandoned as frozen may still hold the old store's mutex
 	kubeeventsmanager.DefaultFactoryStore = kubeeventsmanager.NewFactoryStore()
@@ -70,6 +78,21 @@ func NewSys(hs *HookSet, cluster *fake.Cluster) (*Sys, error) {
 	ctx, cancel := context.WithCancel(context.Background())
 	s := &Sys{HS: hs, Cluster: cluster, cancel: cancel, done: make(chan struct{})}
 	s.Pts = InstallPoints()
+	// FactoryStore.Start holds its mutex across the 100 ms cache-sync poll. A goroutine waiting for that
+	// mutex is not "durably blocked", so virtual time could never reach the poll's timer: the bubble would
+	// freeze. Yield until the (fake, timer-free) informer has synced, so that the poll's immediate check
+	// succeeds and no timer is armed while the mutex is held. Checks that want the poll itself (C17) remove
+	// this handler with Pts.Clear(SyncYieldPoint).
+	s.Pts.On(SyncYieldPoint, func(ev PointEvent) {
+		if synced, ok := ev.Args[0].(func() bool); ok {
+			for i := 0; i < 100000 && !synced(); i++ {
+				runtime.Gosched()
+			}
+			if !synced() {
+				SyncYieldGaveUp.Add(1)
+			}
+		}
+	})
 	op, err := shell_operator.VerifAssemble(shell_operator.VerifConfig{
 		Ctx:            ctx,
 		KubeClient:     cluster.Client,
